@@ -631,10 +631,8 @@ impl S3 for FileSystem {
 
         let body = body.ok_or_else(|| s3_error!(IncompleteBody))?;
 
-        let upload_id = Uuid::parse_str(&upload_id).map_err(|_| s3_error!(InvalidRequest))?;
-        if self.verify_upload_id(req.credentials.as_ref(), &upload_id).await?.not() {
-            return Err(s3_error!(AccessDenied));
-        }
+        let upload_id = Uuid::parse_str(&upload_id).map_err(|_| s3_error!(NoSuchUpload))?;
+        self.verify_upload_id(req.credentials.as_ref(), &upload_id).await?;
 
         let file_path = self.resolve_upload_part_path(upload_id, part_number)?;
 
@@ -660,11 +658,9 @@ impl S3 for FileSystem {
     async fn upload_part_copy(&self, req: S3Request<UploadPartCopyInput>) -> S3Result<S3Response<UploadPartCopyOutput>> {
         let input = req.input;
 
-        let upload_id = Uuid::parse_str(&input.upload_id).map_err(|_| s3_error!(InvalidRequest))?;
+        let upload_id = Uuid::parse_str(&input.upload_id).map_err(|_| s3_error!(NoSuchUpload))?;
         let part_number = input.part_number;
-        if self.verify_upload_id(req.credentials.as_ref(), &upload_id).await?.not() {
-            return Err(s3_error!(AccessDenied));
-        }
+        self.verify_upload_id(req.credentials.as_ref(), &upload_id).await?;
 
         let (src_bucket, src_key) = match input.copy_source {
             CopySource::AccessPoint { .. } => return Err(s3_error!(NotImplemented)),
@@ -733,10 +729,13 @@ impl S3 for FileSystem {
             bucket, key, upload_id, ..
         } = req.input;
 
+        let uuid = Uuid::parse_str(&upload_id).map_err(|_| s3_error!(NoSuchUpload))?;
+        self.check_upload_exists(&uuid)?;
+
         let mut parts: Vec<Part> = Vec::new();
         let mut iter = try_!(fs::read_dir(&self.root).await);
 
-        let prefix = format!(".upload_id-{upload_id}");
+        let prefix = format!(".upload_id-{uuid}");
 
         while let Some(entry) = try_!(iter.next_entry().await) {
             let file_type = try_!(entry.file_type().await);
@@ -789,10 +788,8 @@ impl S3 for FileSystem {
 
         let Some(multipart_upload) = multipart_upload else { return Err(s3_error!(InvalidPart)) };
 
-        let upload_id = Uuid::parse_str(&upload_id).map_err(|_| s3_error!(InvalidRequest))?;
-        if self.verify_upload_id(req.credentials.as_ref(), &upload_id).await?.not() {
-            return Err(s3_error!(AccessDenied));
-        }
+        let upload_id = Uuid::parse_str(&upload_id).map_err(|_| s3_error!(NoSuchUpload))?;
+        self.verify_upload_id(req.credentials.as_ref(), &upload_id).await?;
 
         let object_path = self.get_object_path(&bucket, &key)?;
 
@@ -870,10 +867,8 @@ impl S3 for FileSystem {
             bucket, key, upload_id, ..
         } = req.input;
 
-        let upload_id = Uuid::parse_str(&upload_id).map_err(|_| s3_error!(InvalidRequest))?;
-        if self.verify_upload_id(req.credentials.as_ref(), &upload_id).await?.not() {
-            return Err(s3_error!(AccessDenied));
-        }
+        let upload_id = Uuid::parse_str(&upload_id).map_err(|_| s3_error!(NoSuchUpload))?;
+        self.verify_upload_id(req.credentials.as_ref(), &upload_id).await?;
 
         let _ = self.delete_metadata(&bucket, &key, Some(upload_id));
 
